@@ -299,7 +299,9 @@ def gen_stream(ctx, quick, info):
         yield case(b, "hostile", nm, hostile=nm, force_export=True, force_model=True,
                    from_path=("length-max" in nm or nm.startswith("channel-length-")))
     for nm, b, note in G.big_hostile():
-        yield case(b, "hostile-big", nm, hostile=nm, force_export=False, counted=True)
+        # the counted parse multiplies the time under one watchdog timer: keep it for the read-volume witness only (the
+        # 1.4 MB token file is a time witness and sat close to the limit on a loaded machine)
+        yield case(b, "hostile-big", nm, hostile=nm, force_export=False, counted=not nm.startswith("enginedata-tokens"))
     # ---- synthetic small documents: every truncation offset, every header bit, every skeleton field
     syn = [("syn-v1", G.syn_doc(1)), ("syn-v2", G.syn_doc(2, image_comp=1))]
     if not quick:
